@@ -218,7 +218,12 @@ func coerceECDSAToSecp256k1(pubKey crypto.PubKey) (crypto.PubKey, error) {
 		return nil, errors.New("failed to assert type for secp256k1 coersion")
 	}
 
-	ecdsaPubBytes := append([]byte{0x04}, append(ecdsaPub.X.Bytes(), ecdsaPub.Y.Bytes()...)...)
+	// uncompressed SEC1 form: 0x04 || X || Y with both coordinates at their full width of 32 bytes
+	// (big.Int.Bytes drops leading zero bytes)
+	ecdsaPubBytes := make([]byte, secp256k1.PubKeyBytesLenUncompressed)
+	ecdsaPubBytes[0] = 0x04
+	ecdsaPub.X.FillBytes(ecdsaPubBytes[1:33])
+	ecdsaPub.Y.FillBytes(ecdsaPubBytes[33:])
 
 	secp256k1Pub, err := secp256k1.ParsePubKey(ecdsaPubBytes)
 	if err != nil {
